@@ -31,6 +31,6 @@ m = dict(version=1, setup_cmd='./setup.sh',
                     source_commits=hooks_commits, add_only=True),
          engines=[dict(name='kani-contracts', path='/verif/check', serves_properties=sorted(REG.PROPS), kind_free_text='Kani 0.68/CBMC 6.11 contract harnesses on the real crate (in-crate cfg(kani) module) + Verus lemmas over the contract predicates (contracts/post.rs)')],
          checks=checks, not_applicable=na,
-         notes='See DESIGN.md. exit 2 of ./check = undecided (never a violation). Known findings: known_findings.json (open: D15 under C03, printed as KNOWN-FINDING by ./check C03; all others fixed: entries with their /repo commit).')
+         notes='See DESIGN.md. exit 2 of ./check = undecided (never a violation). Known findings: known_findings.json (open: D15 and D16 under C03, printed as KNOWN-FINDING by ./check C03; all others fixed: entries with their /repo commit).')
 json.dump(m, open(os.path.join(ROOT, 'MANIFEST.json'), 'w'), indent=1)
 print('claimed', [c['property_id'] for c in checks], 'n/a', [n['property_id'] for n in na])
